@@ -42,23 +42,43 @@ theorem Link_dechist_eq_api_partial (o : Opts) (bs : List Nat) (ops : List DecHi
     (hlen : bs.length < 4294967296) (hfac : FacOK o.fac) (hbt : facBtOK o.fac = true) (hfd : facFdOK o.fac = true)
     (hops : ∀ op ∈ ops, linked op = true) :
     (runExact (DecHist.history o.chk fuelCi ops) bs).res.map tokH = toksC (Api.fresh o bs) (ops.map apiOp) := by
-  have := run_link o hfac hbt hfd fuelCi ops { chk := o.chk } (Api.fresh o bs) (Rel.new o bs hb hlen) hops
+  have := (run_link o hfac hbt hfd fuelCi ops [] { chk := o.chk } (Api.fresh o bs) (Rel.new o bs hb hlen) hops).1
   rw [show (Api.fresh o bs).d.rest = bs from rfl] at this
   simpa [DecHist.history] using this
 
-/-- **CHUNK INDEPENDENCE OF WHAT THE API RETURNS, for every linked history (C08 ∘ link).** Whatever clean
+/-- **… and the VALUES.** Same hypotheses: the FITs that (C)'s successful `Decode` / `DecodeWithContext` calls of the history
+return — header, every message with every decoded VALUE, developer fields, expanded components, CRC — and the listener calls made
+during each of them (reserved byte of definitions zeroed) are exactly what `apiOf`'s reconstruction (`iStep`, (C)'s own
+value-level functions applied to the bytes the events carry) rebuilds from the events of (D')'s history program on the exact-n
+reader: one entry per completed sequence, in order (`foldDone`). So the values a history returns are a function of (D')'s
+observation — the object of `C08_chunk_indep_ops`. -/
+theorem Link_dechist_values_partial (o : Opts) (bs : List Nat) (ops : List DecHist.Op) (fuelCi : Nat) (hb : DecApi.IsBytes bs)
+    (hlen : bs.length < 4294967296) (hfac : FacOK o.fac) (hbt : facBtOK o.fac = true) (hfd : facFdOK o.fac = true)
+    (hops : ∀ op ∈ ops, linked op = true) :
+    foldDone o (runExact (DecHist.history o.chk fuelCi ops) bs).evs = fitsC (Api.fresh o bs) (ops.map apiOp) := by
+  have := (run_link o hfac hbt hfd fuelCi ops [] { chk := o.chk } (Api.fresh o bs) (Rel.new o bs hb hlen) hops).2
+  rw [show (Api.fresh o bs).d.rest = bs from rfl] at this
+  simpa [DecHist.history] using this
+
+/-- **CHUNK INDEPENDENCE OF WHAT THE API RETURNS — VALUES INCLUDED —, for every linked history (C08 ∘ link).** Whatever clean
 schedule delivers the stream, whatever the buffer size and the previous state of the buffer: the history program over the
-read buffer does not panic and every call returns what (C)'s `run` returns on the bytes. -/
+read buffer does not panic, every call returns what (C)'s `run` returns on the bytes, and the FITs with all decoded values and the
+listener calls of (C)'s successful `Decode` calls are what `apiOf`'s reconstruction gives on the events of that run. -/
 theorem Link_C08_ops_values_partial (o : Opts) (ops : List DecHist.Op) (fuelCi : Nat) (b : RB) (s : Sched) (size : Int)
     (hs : Clean s) (hb : ReadBuffer.IsBytes (bytesOf s)) (hlen : (bytesOf s).length < 4294967296) (hfac : FacOK o.fac)
     (hbt : facBtOK o.fac = true) (hfd : facFdOK o.fac = true) (hops : ∀ op ∈ ops, linked op = true) :
     ∃ out, runRB (DecHist.history o.chk fuelCi ops) (b.reset s size) = .done out ∧
-      out.res.map tokH = toksC (Api.fresh o (bytesOf s)) (ops.map apiOp) := by
+      out.res.map tokH = toksC (Api.fresh o (bytesOf s)) (ops.map apiOp) ∧
+      foldDone o out.evs = fitsC (Api.fresh o (bytesOf s)) (ops.map apiOp) := by
   obtain ⟨out, e, m, _⟩ := runRB_refines DecHist.Out.merge _ (C08.C08_request_bound_ops o.chk fuelCi ops) _ _
     (reset_inv b s size) hs hb
-  refine ⟨out, e, ?_⟩
-  rw [← tokH_merge_list, m, tokH_merge_list]
-  exact Link_dechist_eq_api_partial o _ ops fuelCi hb hlen hfac hbt hfd hops
+  refine ⟨out, e, ?_, ?_⟩
+  · rw [← tokH_merge_list, m, tokH_merge_list]
+    exact Link_dechist_eq_api_partial o _ ops fuelCi hb hlen hfac hbt hfd hops
+  · have hev0 := congrArg DecHist.Out.evs m
+    have hev : out.evs = (runExact (DecHist.history o.chk fuelCi ops) (bytesOf s)).evs := hev0  -- `merge` keeps the events
+    rw [hev]
+    exact Link_dechist_values_partial o _ ops fuelCi hb hlen hfac hbt hfd hops
 
 /-- … hence any two clean fragmentations, buffer sizes and previous buffer states give the same per-call results -/
 theorem Link_C08_ops_values_partial_two (o : Opts) (ops : List DecHist.Op) (fuelCi : Nat) (b₁ b₂ : RB) (s₁ s₂ : Sched)
@@ -66,10 +86,11 @@ theorem Link_C08_ops_values_partial_two (o : Opts) (ops : List DecHist.Op) (fuel
     (hlen : (bytesOf s₁).length < 4294967296) (hfac : FacOK o.fac) (hbt : facBtOK o.fac = true) (hfd : facFdOK o.fac = true)
     (hops : ∀ op ∈ ops, linked op = true) :
     ∃ o₁ o₂, runRB (DecHist.history o.chk fuelCi ops) (b₁.reset s₁ size₁) = .done o₁ ∧
-      runRB (DecHist.history o.chk fuelCi ops) (b₂.reset s₂ size₂) = .done o₂ ∧ o₁.res.map tokH = o₂.res.map tokH := by
+      runRB (DecHist.history o.chk fuelCi ops) (b₂.reset s₂ size₂) = .done o₂ ∧ o₁.res.map tokH = o₂.res.map tokH ∧
+      foldDone o o₁.evs = foldDone o o₂.evs := by
   obtain ⟨o₁, e₁, m₁⟩ := Link_C08_ops_values_partial o ops fuelCi b₁ s₁ size₁ h₁ hb hlen hfac hbt hfd hops
   obtain ⟨o₂, e₂, m₂⟩ := Link_C08_ops_values_partial o ops fuelCi b₂ s₂ size₂ h₂ (heq ▸ hb) (heq ▸ hlen) hfac hbt hfd hops
-  exact ⟨o₁, o₂, e₁, e₂, by rw [m₁, m₂, heq]⟩
+  exact ⟨o₁, o₂, e₁, e₂, by rw [m₁.1, m₂.1, heq], by rw [m₁.2, m₂.2, heq]⟩
 
 theorem apiOp_small (ops : List DecHist.Op) : ∀ op ∈ ops.map apiOp, OpSmall op := by
   intro op hop
@@ -79,14 +100,19 @@ theorem apiOp_small (ops : List DecHist.Op) : ∀ op ∈ ops.map apiOp, OpSmall 
 /-- **C07 OVER ANY READER (C07 ∘ C08 ∘ link).** History independence as the decoder over the read buffer shows it: for every
 history of `Decode` / `DecodeWithContext` (live or cancelled before the call) / `PeekFileHeader` / `Discard` / `Next` outside the
 class of KF-C07-4, every clean fragmentation of the stream, every buffer size and previous buffer state, the history program ends
-without panic and every call returns what C07's specification — new decoders only — demands of it. -/
+without panic and every call returns (as a token) what C07's specification — new decoders only — demands of it; and the FITs
+with all their values that the reconstruction `apiOf` rebuilds from that run's events (`foldDone`) are those of (C)'s successful
+`Decode` calls (`fitsC`: a sub-list of the run whose every entry the specification demands — second conjunct, C07's `Agree`). -/
 theorem Link_C07_any_reader_partial (o : Opts) (ops : List DecHist.Op) (fuelCi : Nat) (b : RB) (s : Sched) (size : Int)
     (hs : Clean s) (hsm : Small (bytesOf s)) (hf : FacOK o.fac) (hbt : facBtOK o.fac = true) (hfd : facFdOK o.fac = true)
     (hno : C07.NoOverrun o (bytesOf s) (ops.map apiOp)) (hops : ∀ op ∈ ops, linked op = true) :
     ∃ out, runRB (DecHist.history o.chk fuelCi ops) (b.reset s size) = .done out ∧
-      ∀ p ∈ (out.res.map tokH).zip (specRun (Spec.fresh o (bytesOf s)) (ops.map apiOp)), ∀ r, p.2 = some r → p.1 = tokC r.1 := by
-  obtain ⟨out, e, m⟩ := Link_C08_ops_values_partial o ops fuelCi b s size hs hsm.1 hsm.2 hf hbt hfd hops
-  refine ⟨out, e, ?_⟩
+      (∀ p ∈ (out.res.map tokH).zip (specRun (Spec.fresh o (bytesOf s)) (ops.map apiOp)), ∀ r, p.2 = some r → p.1 = tokC r.1) ∧
+      (∀ p ∈ (DecApi.run (Api.fresh o (bytesOf s)) (ops.map apiOp)).zip (specRun (Spec.fresh o (bytesOf s)) (ops.map apiOp)),
+        ∀ r, p.2 = some r → p.1 = r) ∧
+      foldDone o out.evs = fitsC (Api.fresh o (bytesOf s)) (ops.map apiOp) := by
+  obtain ⟨out, e, m, mv⟩ := Link_C08_ops_values_partial o ops fuelCi b s size hs hsm.1 hsm.2 hf hbt hfd hops
+  refine ⟨out, e, ?_, C07.C07_history_indep_partial o (bytesOf s) (ops.map apiOp) hsm hf (apiOp_small ops) hno, mv⟩
   have hag := C07.C07_history_indep_partial o (bytesOf s) (ops.map apiOp) hsm hf (apiOp_small ops) hno
   rw [m]
   intro p hp r hr
@@ -103,6 +129,13 @@ example : (runExact (DecHist.history true 3 [.peekHeader, .next, .decode, .next,
       toksC (Api.fresh { fac := stdFactory } C04.sampleFit) [.peekHeader, .next, .decode, .next, .decode] ∧
     ((toksC (Api.fresh { fac := stdFactory } C04.sampleFit) [.peekHeader, .next, .decode, .next, .decode]).map fun t =>
       match t with | .fit _ _ => 1 | .bool true => 2 | .bool false => 3 | .err .eof => 4 | .header _ => 5 | _ => 0) = [5, 2, 1, 3, 4] := by
+  decide +kernel
+
+/-- … and the values: one FIT with two messages, rebuilt from (D')'s events -/
+example : foldDone { fac := stdFactory } (runExact (DecHist.history true 3 [.peekHeader, .next, .decode, .next, .decode]) C04.sampleFit).evs =
+      fitsC (Api.fresh { fac := stdFactory } C04.sampleFit) [.peekHeader, .next, .decode, .next, .decode] ∧
+    ((fitsC (Api.fresh { fac := stdFactory } C04.sampleFit) [.peekHeader, .next, .decode, .next, .decode]).map fun p =>
+      match p.1 with | .fit f => f.msgs.length | _ => 0) = [2] := by
   decide +kernel
 
 end Fit.Links
